@@ -58,7 +58,16 @@ func r10_12(c *Ctx, rule string) {
 				if !ok || c.P.CalleeName(cl) != "fsutil.NewFilterFS" {
 					return false
 				}
-				return opt != nil && len(cl.Call.Args) == 2 && eng.Strip(cl.Call.Args[1]) == ssa.Value(opt)
+				if opt == nil || len(cl.Call.Args) != 2 {
+					return false
+				}
+				// (built in a shared helper: the options the helper was handed here)
+				for _, r := range eng.ResolveAll(cl.Call.Args[1]) {
+					if q, isP := eng.Strip(r).(*ssa.Parameter); !isP || !strings.Contains(eng.TypeStr(q.Type()), "FilterOpt") || (q.Parent() == fn && q != opt) {
+						return false
+					}
+				}
+				return true
 			}
 			ok := c.DerivesFrom(recv, isFiltered, 5)
 			c.R.Check(ok, rule, c.siteName(call)+"/filtered-view", c.pos(call), "walks NewFilterFS(..., opt)", name+" walks a view that was not built by NewFilterFS with the caller's options: include/exclude patterns, follow-paths and the map function are silently ignored")
